@@ -23,9 +23,19 @@ def run(ctx):
     want = {'self.issue_ack': 0x2, 'self.issue_nak': 0xA, 'self.issue_stall': 0xE}
     loads = g.drivers('self.tx.data', exact=True)
     for req, pid in want.items():
-        ds = [a for a in loads if q.has(a, req)]
         byte = (pid | ((~pid & 0xF) << 4))
-        ok = len(ds) == 1 and ds[0].rhs.op == 'const' and ds[0].rhs.val == byte and q.state_of(ds[0]) == idle
+        # the byte loaded when THIS request alone is raised (last firing assignment in the idle state wins) -- three separate
+        # Ifs, an If/Elif chain or one assignment from a Mux of constants make no difference
+        from ..fsm import lit_atoms, assignments, holds
+        here = sorted([a for a in loads if a.state is None or q.state_of(a) == idle], key=lambda a: a.order)
+        ats = sorted({x for a in here for l in a.guard for x in lit_atoms(l)} | set(want))
+        ok = bool(here) and all(q.state_of(a) == idle for a in loads)
+        ds = []
+        if ok:
+            for asg in assignments(ats, dict({r: (r == req) for r in want})):
+                fire = [a for a in here if holds(a.guard, asg)]
+                ds = fire[-1:] or ds
+                ok = ok and bool(fire) and fire[-1].rhs.op == 'const' and fire[-1].rhs.val == byte
         ctx.ob('C04.pid-byte', 'USBHandshakeGenerator.' + req.split('.')[-1], ok, ds[0].loc if ds else None,
                '%s must load the byte %#04x (PID %s with complemented check nibble): %s' % (req, byte, bin(pid), [q.fmt(a) for a in ds]))
         o = state_outcomes(fsm, idle, {r: (r == req) for r in want})
